@@ -59,6 +59,7 @@ pub trait ArrayBuilder: Sized + Send + Sync + 'static {
 
     fn extend_from_nulls(&mut self, count: usize);
 
+    /// Replace the validity of the `valid.len()` values appended last.
     fn replace_bitmap(&mut self, valid: BitVec);
 
     /// Create a new builder with `capacity`.
